@@ -94,7 +94,7 @@ def stage_free(chk, stats):
     # them, each listed in known_findings.jsonl by its exact signature; a seed range that moved with VERIF_SEED could meet a rare
     # unlisted variant of the same root causes.  `new_programs=0`: `supervisorctl update` with a NEW program (root cause A of the
     # known findings) is only replayed from the corpus.
-    n = 240 if chk.tier == 'quick' else 1500
+    n = 240 if chk.tier == 'quick' else 6000
     agg = {}
     # corpus first: the schedules of past failures (known findings and repaired defects), whatever the tier
     cdir = os.path.join(os.path.dirname(HERE), 'corpus', 'C16'); ncorpus = 0
